@@ -91,7 +91,7 @@ def reports(tier, quick, thorough):
 
 
 def c04(tier, seed):
-    return combine(reports(tier, ['report_q', 'report_missing_q'], ['report_t', 'report_one_t']) + [cli_family(tier), fx_family(tier)] + fam_list(tier, ['lines4_q', 'lines_fills_q'], []), ['reports', 'missing_exemption_refused', 'layering_configs', 'multi_foreign_field'],
+    return combine(reports(tier, ['report_q', 'report_missing_q'], ['report_t', 'report_one_t']) + [cli_family(tier), fx_family(tier), long_family(tier, seed)] + fam_list(tier, ['lines4_q', 'lines_fills_q'], []), ['reports', 'missing_exemption_refused', 'layering_configs', 'multi_foreign_field'],
                    'two-security cell ledgers placed on real dates around 5/6 April with cash dividends and a small exemption '
                    'table (one family leaves a needed year unconfigured); TLC checks the report identities on the '
                    'specification and prints the per-year totals; the implementation\'s TaxReport must show the same '
@@ -108,7 +108,7 @@ def c07(tier, seed):
 
 
 def _c07(tier, seed):
-    return combine([calendar_family()] + reports(tier, ['report_q', 'report_missing_q'], ['report_t', 'report_one_t']), ['boundary_dates', 'slices', 'slices_next_to_unconfigured_year'],
+    return combine([calendar_family()] + reports(tier, ['report_q', 'report_missing_q'], ['report_t', 'report_one_t']) + [long_family(tier, seed)], ['boundary_dates', 'slices', 'slices_next_to_unconfigured_year'],
                    'every date 1899-12-31..2101-12-31 (exhaustive, one TLC state each) through TaxPeriod::from_date, the '
                    'all-years grouping and the single-year filter for the years Y-1, Y, Y+1; plus, for every report-family '
                    'ledger, calculate(Some(Y)) against the Y entry of calculate(None); non-trivial = 5/6 April and leap-day '
